@@ -12,7 +12,7 @@ from vlib.run import Check, Violation, note_accept
 
 PROPERTY = "C07"
 RULE = (
-    "enum: every interval tier of <=3 (thorough <=4) non-overlapping intervals on the integer grid 0..6 (0..8), "
+    "enum: every interval tier of <=3 (thorough <=4) non-overlapping intervals on the integer grid 0..5 (0..8), "
     "labels all-distinct and all-equal, and every point tier of <=3 points, x every region a<b on the half-integer "
     "grid inside the span x {truncate,categorical,error} x doShrink; gen: random dyadic and non-dyadic decimal tiers "
     "and textgrids with region edges drawn from entry boundaries, midpoints and arbitrary in-span times (plus a>=b). "
@@ -171,7 +171,7 @@ def _grid_tiers(G, kmax):
 
 
 def enum_interval(tier, shard, nshards):
-    G, k = (6, 3) if tier == "quick" else (8, 4)
+    G, k = (5, 3) if tier == "quick" else (8, 4)
     vals = [x / 2 for x in range(0, 2 * G + 1)]
     i = 0
     for ents in _grid_tiers(G, k):
